@@ -527,3 +527,105 @@ example : (addMix primEx storeEx [(1, 1), (2, 3)] Acc.zero).totals.toList = [("C
     (addMix primEx storeEx [(1, 1/4), (2, 3/4)] Acc.zero).cb = 1/4000 := by decide +kernel
 
 end PhreeqcVerif.MixAlg
+
+namespace PhreeqcVerif.Units.Sol
+open Txt
+
+/-- **SOLUTION_SPREAD rows versus SOLUTION blocks, with the solution-level options.** A data row read under block-level option
+lines `ds` is the SOLUTION block whose lines are `ds` followed by the column strings `heading datum unit-cell` — settings (units,
+temperature, pH, pe, density, water) and constituents alike. Because a block applies its lines in order, this is the precedence
+row cell > block-level option > built-in default; the units a constituent without units inherits are those in force at the end. -/
+theorem spread_row_is_block (ds : List (List Char)) (cells : List (List Char × List Char × List Char))
+    (hd : ∀ l ∈ ds, CommonOpt l)
+    (hc : ∀ c ∈ cells, CommonOpt (spreadCell c.1 c.2.1 c.2.2) ∨ ConstituentLine (spreadCell c.1 c.2.1 c.2.2)) :
+    readRow ds cells = readBlock (ds ++ cells.map fun c => spreadCell c.1 c.2.1 c.2.2) := by
+  have hdef : ∀ (ls : List (List Char)) (acc : Option Settings), (∀ l ∈ ls, CommonOpt l) →
+      ls.foldl (stepLine .block) (acc.map (⟨·, []⟩)) = (ls.foldl stepDefault acc).map (⟨·, []⟩) := by
+    intro ls
+    induction ls with
+    | nil => intro acc _; rfl
+    | cons l ls ih =>
+      intro acc h
+      simp only [List.foldl_cons]
+      cases acc with
+      | none => simp only [Option.map_none, stepLine, stepDefault]; exact ih none (fun m hm => h m (by simp [hm]))
+      | some s =>
+        simp only [Option.map_some]
+        rw [stepDefault_opt s [] l (h l (by simp))]
+        exact ih _ (fun m hm => h m (by simp [hm]))
+  have hrow : ∀ (ls : List (List Char)) (acc : Option Read), (∀ l ∈ ls, CommonOpt l ∨ ConstituentLine l) →
+      ls.foldl (stepLine .row) acc = ls.foldl (stepLine .block) acc := by
+    intro ls
+    induction ls with
+    | nil => intro acc _; rfl
+    | cons l ls ih =>
+      intro acc h
+      simp only [List.foldl_cons]
+      cases acc with
+      | none => simp only [stepLine]; rw [stepLine_none, stepLine_none]
+      | some r =>
+        have : stepLine .row (some r) l = stepLine .block (some r) l := by
+          rcases h l (by simp) with h1 | h1
+          · exact stepLine_opt r l h1
+          · exact stepLine_comp r l h1
+        rw [this]
+        exact ih _ (fun m hm => h m (by simp [hm]))
+  unfold readRow readBlock
+  rw [List.foldl_append]
+  have e := hdef ds (some {}) hd
+  simp only [Option.map_some] at e
+  rw [e]
+  cases hfd : ds.foldl stepDefault (some {}) with
+  | none => simp only [Option.map_none]; rw [stepLine_none]
+  | some d =>
+    simp only [Option.map_some]
+    apply hrow
+    intro l hl
+    simp only [List.mem_map] at hl
+    obtain ⟨c, hcm, rfl⟩ := hl
+    exact hc c hcm
+
+/-! concrete rows (kernel-evaluated): row cell > block-level -units > built-in -/
+def exDefaults : List (List Char) := ["-units mmol/kgw".toList, "-temp 12".toList, "-water 0.5".toList]
+def exCells : List (List Char × List Char × List Char) :=
+  [("units".toList, "umol/kgw".toList, []), ("pH".toList, "6.5".toList, []), ("Ca".toList, "2400".toList, []),
+   ("Cl".toList, "30".toList, "mg/kgw".toList), ("Water".toList, "2".toList, [])]
+def exMaster : String → Option Rat := fun n => if n = "Ca" then some (4008/100) else if n = "Cl" then some (35453/1000) else none
+
+example : (readRow exDefaults exCells).map (·.set) =
+    some { units := ⟨.micro, .mol, .perKgw⟩, temp := 12, ph := 13/2, water := 2 } := by decide +kernel
+/-- Ca has no units of its own: it is read in the units of the ROW (umol/kgw), not in the block-level mmol/kgw -/
+example : ((readRow exDefaults exCells).bind (compsOf exMaster fun _ => false)).map (·.map fun c => (c.name, c.unit.str)) =
+    some [("Ca", "uMol/kgw"), ("Cl", "mg/kgw")] := by decide +kernel
+example : ((readRow exDefaults (exCells.drop 1)).bind (compsOf exMaster fun _ => false)).map (·.map fun c => (c.name, c.unit.str)) =
+    some [("Ca", "mMol/kgw"), ("Cl", "mg/kgw")] := by decide +kernel
+example : ((readRow [] [("Ca".toList, "2.4".toList, [])]).bind (compsOf exMaster fun _ => false)).map (·.map fun c => c.unit.str) =
+    some ["mMol/kgw"] := by decide +kernel
+/-- a row whose units cell changes the family: the per-column unit must follow the row (mg/l is now incompatible) -/
+example : (readRow exDefaults [("unit".toList, "ug/L".toList, []), ("Cl".toList, "30".toList, "mg/kgw".toList)]).bind
+    (compsOf exMaster fun _ => false) = none := by decide +kernel
+/-- the hypotheses of `spread_row_is_block` hold for this row -/
+example : readRow exDefaults exCells = readBlock (exDefaults ++ exCells.map fun c => spreadCell c.1 c.2.1 c.2.2) := by
+  apply spread_row_is_block
+  · intro l hl
+    simp only [exDefaults, List.mem_cons, List.not_mem_nil, or_false] at hl
+    rcases hl with rfl | rfl | rfl
+    · exact ⟨"units", by decide +kernel, by simp [Regular, semOfName, tokens, tokens.go, isWs]⟩
+    · exact ⟨"temp", by decide +kernel, by simp [Regular, semOfName, tokens, tokens.go, isWs]⟩
+    · exact ⟨"water", by decide +kernel, by simp [Regular, semOfName, tokens, tokens.go, isWs]⟩
+  · intro c hc
+    simp only [exCells, List.mem_cons, List.not_mem_nil, or_false] at hc
+    rcases hc with rfl | rfl | rfl | rfl | rfl
+    · left; exact ⟨"units", by decide +kernel, by simp [Regular, semOfName, tokens, tokens.go, isWs, spreadCell]⟩
+    · left; exact ⟨"ph", by decide +kernel, by simp [Regular, semOfName, tokens, tokens.go, isWs, spreadCell]⟩
+    · right; exact ⟨by decide +kernel, by decide +kernel, ⟨"Ca".toList, ["2400".toList], by decide +kernel, by decide +kernel, by decide +kernel⟩, by decide +kernel⟩
+    · right; exact ⟨by decide +kernel, by decide +kernel, ⟨"Cl".toList, ["30".toList, "mg/kgw".toList], by decide +kernel, by decide +kernel, by decide +kernel⟩, by decide +kernel⟩
+    · left; exact ⟨"water", by decide +kernel, by simp [Regular, semOfName, tokens, tokens.go, isWs, spreadCell]⟩
+
+/-- the built-in default of `read_solution_spread` is the literal "mmol/kgw", which never went through `check_units`; the string
+tests of `convert_units` cannot tell it from the canonical "mMol/kgw" -/
+example : sPreFactor "mmol/kgw".toList = sPreFactor "mMol/kgw".toList ∧ sGramPerSolution "mmol/kgw".toList = sGramPerSolution "mMol/kgw".toList ∧
+    sMolPerSolution "mmol/kgw".toList = sMolPerSolution "mMol/kgw".toList ∧ sIsGram "mmol/kgw".toList = sIsGram "mMol/kgw".toList ∧
+    sPerL "mmol/kgw".toList = sPerL "mMol/kgw".toList ∧ sPerSolution "mmol/kgw".toList = sPerSolution "mMol/kgw".toList := by decide +kernel
+
+end PhreeqcVerif.Units.Sol
